@@ -1287,6 +1287,7 @@ def judge_history(world, ops, real):
         stats[k] = stats.get(k, 0) + 1
     override = None          # the loaded set reported by the library, once it differed from the expected one
     asked_before = set()
+    missed = set()
     for i, op in enumerate(ops):
         if i >= len(real['steps']):
             break
@@ -1354,6 +1355,12 @@ def judge_history(world, ops, real):
         if want and not first:
             if any(ns in lazy for ns in want):
                 hit('%s:re-ask-after-miss-or-hit:in-lazy-typelib' % label)
+            if (kind, key) in missed:
+                # THE pattern of the negative cache: asked while absent, a load brought it, asked again
+                hit('%s:present-after-an-earlier-miss:%s' % (label, 'only-in-lazily-loaded' if all(ns in lazy for ns in want)
+                                                             else 'in-loaded'))
+        if not want:
+            missed.add((kind, key))
         if r is None:
             if want:
                 ns0 = sorted(want)[0]
@@ -1539,8 +1546,8 @@ def run_histories(ctx, tools, cnt, corpus_hist, samples):
     htools = HistTools(ctx, tools)
     state = {'reported': 0, 'tie_notes': 0, 'model_diffs': 0}
     total = 0
-    nworlds = ctx.n(10, 60)
-    nhist = ctx.n(16, 40)
+    nworlds = ctx.n(10, 48)
+    nhist = ctx.n(16, 36)
     length = ctx.n(28, 40)
     worlds = [dict(c) for c in corpus_hist]
     for _ in range(nworlds):
